@@ -419,7 +419,7 @@ class ConfigParser(object):
   def _set_value(self, cp, override):
     # configparser checks the place-holder syntax of a value when it is set and raises ValueError for
     # text such as 'as.buck ${A 2 3'. A file may contain that text: it is reported (as a configuration
-    # error) when, and if, the entry is used. Store the value the way reading a file does.
+    # error) by _check_placeholders(), or when the entry is used. Store the value the way reading a file does.
     value = override.value.strip()
     try:
       cp[override.section][override.key] = value
@@ -472,7 +472,19 @@ class ConfigParser(object):
         cp.add_section(override.section)
       self._set_value(cp, override)
 
+    self._check_placeholders(cp)
     return cp
+
+  def _check_placeholders(self, cp):
+    """Every ${...} place-holder of the sections that make up a potential definition must resolve, whether or
+    not the chosen tabulation target goes on to read the entry (e.g. [Species] of a pair model)."""
+    known = ['Tabulation', 'Pair', 'EAM-Embed', 'EAM-Density', 'EAM-ADP-Dipole', 'EAM-ADP-Quadrupole',
+      'Potential-Form', 'Species', cp.default_section]
+    for section in [cp.default_section] + cp.sections():
+      if not section in known and not _TableFormSection.is_relevant_section(section):
+        continue
+      for option in cp.options(section):
+        cp.get(section, option)
 
   def _check_for_duplicates(self):
     self._check_for_duplicate_pairs()
